@@ -54,6 +54,12 @@ type Config struct {
 type Node struct {
 	// Jitter makes BeginBlock add a varying sub-millisecond part to every header time.
 	Jitter bool
+	// Spec (permille) is the fault "a block is executed speculatively and thrown away": before the real execution of
+	// that share of the blocks, PreBlocker, BeginBlocker and EndBlocker run for the same header on a branch of the
+	// state that is discarded (a proposal that is processed but not decided, optimistic execution that is aborted) -
+	// same process, same keepers. Whatever the application keeps outside the store survives it.
+	Spec  int64
+	Specs int
 	App    *app.OsmosisApp
 	DB     dbm.DB
 	Home   string
@@ -246,6 +252,24 @@ func (n *Node) BeginBlock(dt time.Duration) (pv interface{}) {
 	n.Time = n.Time.Add(dt)
 	hdr := tmproto.Header{ChainID: ChainID, Height: n.Height, Time: n.Time, AppHash: n.LastAppHash,
 		ProposerAddress: sdk.ConsAddress(n.consAddr(0))}
+	if n.Spec > 0 && (n.Height*2654435761+17)%1000 < n.Spec {
+		func() {
+			defer func() { _ = recover() }()
+			sctx := sdk.NewContext(n.App.CommitMultiStore().CacheMultiStore(), hdr, false, Logger).
+				WithBlockGasMeter(storetypes.NewInfiniteGasMeter()).
+				WithGasMeter(storetypes.NewInfiniteGasMeter()).
+				WithExecMode(sdk.ExecModeFinalize).
+				WithConsensusParams(*sims.DefaultConsensusParams)
+			if _, err := n.App.PreBlocker(sctx, nil); err != nil {
+				return
+			}
+			if _, err := n.App.BeginBlocker(sctx); err != nil {
+				return
+			}
+			_, _ = n.App.EndBlocker(sctx)
+		}()
+		n.Specs++
+	}
 	n.blockMS = n.App.CommitMultiStore().CacheMultiStore()
 	n.Ctx = sdk.NewContext(n.blockMS, hdr, false, Logger).
 		WithBlockGasMeter(storetypes.NewInfiniteGasMeter()).
